@@ -233,3 +233,43 @@ func (w *VerifC18Wired) AddrMgrResponds(bound time.Duration) bool {
 func (w *VerifC18Wired) AddrCounts() (nTried, nNew, inTried, inNew, index int, ok bool) {
 	return w.s.addrManager.VerifC18Counts()
 }
+
+// RemoteHandshakeN is RemoteHandshake with the version message repeated `versions` times.
+func (w *VerifC18Wired) RemoteHandshakeN(ip net.IP, port int, nonce uint64, versions int, withVerAck bool) ([]byte, error) {
+	var out []byte
+	for i := 0; i < versions; i++ {
+		b, err := w.RemoteHandshake(ip, port, nonce+uint64(i)*7919, true, false)
+		if err != nil {
+			return nil, err
+		}
+		out = append(out, b...)
+	}
+	if withVerAck {
+		b, err := w.RemoteHandshake(ip, port, nonce, false, true)
+		if err != nil {
+			return nil, err
+		}
+		out = append(out, b...)
+	}
+	return out, nil
+}
+
+// OutboundGroups asks the peer handler (the real query path server.OutboundGroupCount, the one
+// NewAddressFunc uses) for the sum of the outbound group counters of the given group keys; -1 when it
+// does not answer within the bound.
+func (w *VerifC18Wired) OutboundGroups(keys []string, bound time.Duration) int {
+	ch := make(chan int, 1)
+	go func() {
+		n := 0
+		for _, k := range keys {
+			n += w.s.OutboundGroupCount(k)
+		}
+		ch <- n
+	}()
+	select {
+	case n := <-ch:
+		return n
+	case <-time.After(bound):
+		return -1
+	}
+}
